@@ -296,6 +296,26 @@ theorem gen_table_call (o : NumOps α) (tbl : List α) (den : α) (freq phase : 
     ALV.Gen.C19.table_call o tbl den freq phase n = tableCallNow o tbl den freq phase n := by
   simp only [ALV.Gen.C19.table_call, tableCallNow, gen_modulo_counter, mapRunG, gen_table_sample]
 
+theorem gen_table_getitem (o : NumOps α) (floor : α → Except String Int) (tbl : List α) (idx : α) :
+    ALV.Gen.C19.table_getitem o floor tbl idx = getItemNow o floor tbl idx := by
+  simp only [ALV.Gen.C19.table_getitem, getItemNow, bindE, indexG, intModG]
+  cases floor idx with
+  | error e => rfl
+  | ok left =>
+    simp only []
+    by_cases hL : (tbl.length : Int) = 0
+    · simp only [hL, if_true]
+    · simp only [hL, if_false]
+      cases pyIndex tbl (left.fmod (tbl.length : Int)) with
+      | none => rfl
+      | some x =>
+        simp only []
+        cases o.ceil idx with
+        | error e => rfl
+        | ok c =>
+          simp only []
+          cases pyIndex tbl (c.fmod (tbl.length : Int)) <;> rfl
+
 /-- where `ceil` raises nothing when `int()` raises nothing (exact numbers; binary64), Python's order of
     evaluation and the order of `lookupAtG` give the same sample or the same exception -/
 theorem lookupAtNow_eq_G (o : NumOps α) (tbl : List α) (idx : α)
